@@ -120,8 +120,8 @@ func flight1Generate(
 		})
 	}
 
-	if len(cfg.ServerName) > 0 {
-		extensions = append(extensions, &extension.ServerNameOffer{ServerName: cfg.ServerName})
+	if sni := dtlsflight.SNIServerName(cfg.ServerName); len(sni) > 0 {
+		extensions = append(extensions, &extension.ServerNameOffer{ServerName: sni})
 	}
 
 	if len(cfg.LocalSRTPProtectionProfiles) > 0 {
